@@ -122,14 +122,14 @@ theorem append_inv {f : Forest} (hi : f.Inv) (p c : Nat) : (f.append p c).1.Inv 
         obtain ⟨a, hta⟩ := textOf_of_value? hcv hct
         by_cases hnn : n.value.isNormal = true
         · rw [if_pos hnn] at hlc
-          refine ⟨?_, ?_⟩
-          · intro e; apply hlast; rw [hlc, e]; simp
+          have hne : n.handle ≠ c := by intro e; apply hlast; rw [hlc, e]; simp
+          refine ⟨hne, ?_⟩
           · cases hnt : n.value.isText with
             | false => rfl
             | true =>
               exfalso
               obtain ⟨s, hts⟩ := textOf_of_value? hnv hnt
-              have := addConsolidate_prev_true none hcons hta hts
+              have := addConsolidate_prev_true none hcons hta hts hne
               rw [← hlc, h2] at this
               cases this
         · refine ⟨?_, ?_⟩
